@@ -183,7 +183,7 @@ create_trace_stream(void)
 				rproc.procdir, rthread.tid);
 	}
 
-	rthread.streamfd = open(path, O_WRONLY | O_CREAT, 0644);
+	rthread.streamfd = open(path, O_WRONLY | O_CREAT | O_TRUNC, 0644);
 
 	if (rthread.streamfd == -1)
 		die("open %s failed:", path);
